@@ -95,6 +95,7 @@ def result_maker():
 
 
 def gen_tables(ctx):
+    common.source_tie('C02')
     from exactly_lib.execution.full_execution import result as fres, execution as fexe
     from exactly_lib.execution.result import ExecutionFailureStatus, PhaseStepFailure, ActionToCheckOutcome
     from exactly_lib.execution.failure_info import ActPhaseFailureInfo
